@@ -11,6 +11,8 @@ def weighted(P, W):
 def make_curve(c):
     from geomdl import BSpline, NURBS
     kw = {} if c.get("normalize", True) else {"normalize_kv": False}
+    if c.get("precision"):
+        kw["precision"] = c["precision"]
     if c.get("rational"):
         o = NURBS.Curve(**kw)
         o.degree = c["p"]
